@@ -162,3 +162,7 @@ VARIANTS += [
  V("c42-t1-waiter-drops-read-turn-token", "C42", "C42.T1", "internal/cache/read_shard.go",
    "			// e.mu, and take the turn. So try to actually get the turn by trying\n			// again in the loop.\n", "			// e.mu, and take the turn. So try to actually get the turn by trying\n			// again in the loop.\n			if err := ctx.Err(); err != nil {\n				return nil, 0, err\n			}\n"),
 ]
+VARIANTS += [
+ V("c09-m2-synthetic-suffix-dropped-when-asking-filter", "C09", "C09.M2", "range_keys.go",
+   "	return m.filter.SyntheticSuffixIntersects(prop, suffix)", "	_ = suffix\n	return m.filter.Intersects(prop)"),
+]
